@@ -1,1 +1,4 @@
 //! Hooks of group 'integrity' for the /verif machinery.
+
+/// The gidnumber plugin's per-entry transform (module `plugins` is crate-private).
+pub use crate::plugins::gidnumber::verif as gidnumber;
